@@ -45,6 +45,7 @@ FIXED = [
  (["C16"], "fix: ELF loader no longer overflows computing the TLS end", "a file with a PT_LOAD on the last page of the address space and a PT_TLS header at the same p_vaddr panicked ('attempt to add with overflow' in `segment.p_vaddr + a.len()`); found after C16 gained pairs of the same field in two program headers, prompted by a sub-agent's remark (key elf-load|panic@src/elf/elf.rs(attempt to add with overflow)|pair(same field, two program headers))"),
  (["C19"], "fix: pipe with a descriptor array at the very end of the address space", "`syscall` pipe(rdi) with rdi in the last 8 bytes of a mapped area ending at 2^64 panicked ('attempt to add with overflow' in `fd_ptr + 8`); found by C19's syscall-argument sweep (key syscall|panic@src/helpers/syscalls.rs(attempt to add with overflow))"),
  (["C19"], "fix: brk refuses to grow the heap beyond 1 GiB", "`syscall` brk(p) with a huge p and no area above the heap allocated p - base bytes (2^40 in the sweep: allocation failure aborts the host); found by C19's syscall-argument sweep (key step|oversized-alloc|syscall)"),
+ (["C04"], "fix: POP RSP and POP SP leave the popped value", "`pop rsp` / `pop sp` ended with RSP = old RSP + 8 (+2): the increment was written after the destination, overriding the popped value; found when S8a gained templates whose operand is the stack pointer (keys Pop_r64|reg|reg:dst|rsp=*, Pop_r16|reg|reg:dst|rsp=*)"),
  (["C16"], "fix: debug builds no longer panic on an unknown ELF segment type", "in builds with debug assertions an unknown p_type with p_vaddr == 0 panicked inside a debug_log! argument ('Unknown segment type'); found by the dev-like profile run of the thorough tier (keys devlike|elf-load|panic@src/elf/elf.rs(Unknown segment type)|*)"),
 ]
 
